@@ -45,6 +45,7 @@ class Ctx:
         self.extra = []       # extra Z params discovered (len_x, x_n0)
         self.loops = []       # emitted loop-body definitions (text)
         self.nloop = 0
+        self.aux_stack = []
         self.params = list(sig_types)
         for p, t in sig_types.items():
             self.env[p] = t
@@ -465,38 +466,43 @@ class Translator:
             out += f"let {nm} := {proj} in\n"
         return out
 
-    def block(self, c, stmts, result):
+    def block(self, c, stmts, result, top=False):
         """Translate stmts followed by `result` (a coq expression string that
-        may mention the variables)."""
-        if not stmts:
-            return result
-        s, rest = stmts[0], stmts[1:]
-        if isinstance(s, ast.Expr) and isinstance(s.value, ast.Constant):
-            return self.block(c, rest, result)      # docstring
-        if isinstance(s, ast.Pass):
-            return self.block(c, rest, result)
-        if isinstance(s, ast.Return):
-            if rest:
-                self.bad(s, "return not in tail position")
-            return self.ret(c, s)
-        if isinstance(s, ast.Assign):
-            if len(s.targets) != 1:
-                self.bad(s, "chained assignment")
-            head = self.assign(c, s.targets[0], s.value, s)
-            return head + self.block(c, rest, result)
-        if isinstance(s, ast.AugAssign):
-            head = self.augassign(c, s)
-            return head + self.block(c, rest, result)
-        if isinstance(s, ast.If):
-            head = self.ifstmt(c, s)
-            return head + self.block(c, rest, result)
-        if isinstance(s, ast.For):
-            head = self.forstmt(c, s)
-            return head + self.block(c, rest, result)
-        if isinstance(s, ast.Expr) and isinstance(s.value, ast.Call):
-            head = self.callstmt(c, s.value)
-            return head + self.block(c, rest, result)
-        self.bad(s)
+        may mention the variables).  With top=True (body of a for loop) every
+        call to a translated function records the text translated so far, so
+        that the arguments handed to the callee become a definition of their
+        own (<fn>_L<k>_call<m>): theorems about "the system assembled for the
+        solver" are stated on those."""
+        out = ''
+        n = len(stmts)
+        for idx, s in enumerate(stmts):
+            if isinstance(s, ast.Expr) and isinstance(s.value, ast.Constant):
+                continue      # docstring
+            if isinstance(s, ast.Pass):
+                continue
+            if isinstance(s, ast.Return):
+                if idx != n - 1:
+                    self.bad(s, "return not in tail position")
+                return out + self.ret(c, s)
+            if isinstance(s, ast.Assign):
+                if len(s.targets) != 1:
+                    self.bad(s, "chained assignment")
+                out += self.assign(c, s.targets[0], s.value, s)
+            elif isinstance(s, ast.AugAssign):
+                out += self.augassign(c, s)
+            elif isinstance(s, ast.If):
+                out += self.ifstmt(c, s)
+            elif isinstance(s, ast.For):
+                out += self.forstmt(c, s)
+            elif isinstance(s, ast.Expr) and isinstance(s.value, ast.Call):
+                if top and c.aux_stack:
+                    args = [a.id for a in s.value.args
+                            if isinstance(a, ast.Name) and c.env.get(a.id) in ARR]
+                    c.aux_stack[-1].append((out, args, [c.env[a] for a in args]))
+                out += self.callstmt(c, s.value)
+            else:
+                self.bad(s)
+        return out + result
 
     def ret(self, c, s):
         v = s.value
@@ -722,7 +728,9 @@ class Translator:
         nextra0 = len(c.extra)
         c.env[lv] = 'Z'
         pat, tup = self.tuple_pat(state)
-        body = self.block(c, s.body, tup)
+        c.aux_stack.append([])
+        body = self.block(c, s.body, tup, top=True)
+        aux = c.aux_stack.pop()
         # restore: loop-local names vanish, state keeps its types
         c.env, c.lens = env0, lens0
         for e in c.extra[nextra0:]:
@@ -731,6 +739,14 @@ class Translator:
         params = ' '.join(f"({n} : {self.coqty(c.env[n])})" for n in outer)
         stty = ' * '.join(self.coqty(c.env[n]) for n in state)
         bind = self.unpack(state, 'st_')
+        for m, (prefix, anames, atypes) in enumerate(aux, 1):
+            if not anames:
+                continue
+            aty = ' * '.join(self.coqty(t) for t in atypes)
+            _, atup = self.tuple_pat(anames)
+            c.loops.append(
+                f"Definition {dname}_call{m} {params} ({lv} : Z) (st_ : {stty}) : {aty} :=\n"
+                + textwrap.indent(bind + prefix + atup, '  ') + ".\n")
         c.loops.append(
             f"Definition {dname} {params} ({lv} : Z) (st_ : {stty}) : {stty} :=\n"
             + textwrap.indent(bind + body, '  ') + ".\n")
